@@ -79,7 +79,18 @@ func verifExpectedPaths(chain []verifSeg) []string {
 
 // verifGenChain builds `github<seg>...` with symbolic letter case on every name.
 func verifGenChain(tag string, depth int) (string, []verifSeg) {
-	src := verifCased(tag+"root", "github")
+	return verifGenChainOver(tag, depth, verifC11Names)
+}
+
+var verifC11FewNames = []string{"event", "commits", "foo"}
+
+func verifGenChainOver(tag string, depth int, names []string) (string, []verifSeg) {
+	verifC11Names := names
+	plain := len(names) < 10 // the small vocabulary is used without symbolic letter case
+	src := "github"
+	if !plain {
+		src = verifCased(tag+"root", "github")
+	}
 	var chain []verifSeg
 	n := verifChoose(tag+"len", depth+1)
 	for i := 0; i < n; i++ {
@@ -94,6 +105,11 @@ func verifGenChain(tag string, depth int) (string, []verifSeg) {
 			chain = append(chain, verifSeg{segFilter, ""})
 		default:
 			name := verifC11Names[c]
+			if plain {
+				src += "." + name
+				chain = append(chain, verifSeg{segName, name})
+				continue
+			}
 			if verifChoose(t+"lit", 2) == 1 {
 				src += "['" + verifCased(t+"case", name) + "']"
 				chain = append(chain, verifSeg{segLit, name})
@@ -115,6 +131,7 @@ var verifC11Embeddings = []verifEmbedding{
 	{"", "", false}, {"!", "", false}, {"", " == 'a'", false}, {"'a' != ", "", false},
 	{"format('{0}', ", ")", false}, {"toJSON(", ")", false}, {"(", ")", false}, {"", " && true", false},
 	{"fromJSON('[1]')[", "]", false}, {"format('{0}{1}', 1, join(", ", ','))", false},
+	{"(", " || 'a') && 'b'", false}, {"!(", " || 'a') || 'b'", false}, {"", " && 'a' || 'b'", false}, {"'a' && (", " || 'b')", false},
 	{"contains(", ", 'a')", true}, {"startsWith(", ", 'a')", true}, {"endsWith('a', ", ")", true},
 	{"contains(toJSON(", "), 'a')", true}, {"format('{0}', contains(", ", 'a'))", true},
 }
@@ -159,10 +176,50 @@ func HarnessC11Chains(depth int) {
 	verifCheck(n2 == 0, "reported-outside-script-position")
 }
 
-// HarnessC11Two: two chains in one expression (operators, nested index).
+// verifUntrustedSpelling renders a documented path with [0] or .* for array
+// elements and .name or ['name'] for properties (free choices).
+func verifUntrustedSpelling(tag string) (string, []verifSeg) {
+	p := verifUntrustedPaths[verifChoose(tag+"path", len(verifUntrustedPaths))]
+	src := "github"
+	var chain []verifSeg
+	lit := verifChoose(tag+"lit", 2) == 1
+	for _, seg := range strings.Split(p, ".")[1:] {
+		t := tag + "star"
+		if seg == "*" {
+			if verifChoose(t, 2) == 1 {
+				src += ".*"
+				chain = append(chain, verifSeg{segFilter, ""})
+			} else {
+				src += "[0]"
+				chain = append(chain, verifSeg{segIndex, ""})
+			}
+			continue
+		}
+		if lit {
+			src += "['" + seg + "']"
+			chain = append(chain, verifSeg{segLit, seg})
+		} else {
+			src += "." + seg
+			chain = append(chain, verifSeg{segName, seg})
+		}
+	}
+	return src, chain
+}
+
+// HarnessC11Two: two chains in one expression (operators, nested index): a
+// generic chain first or second, the other one a documented untrusted path in
+// one of its spellings (so that state left behind by the first chain is
+// observable on the second).
 func HarnessC11Two(depth int) {
-	x, cx := verifGenChain("a", depth)
-	y, cy := verifGenChain("b", depth)
+	var x, y string
+	var cx, cy []verifSeg
+	if verifChoose("order", 2) == 1 {
+		x, cx = verifUntrustedSpelling("u")
+		y, cy = verifGenChainOver("b", depth, verifC11FewNames)
+	} else {
+		x, cx = verifGenChainOver("a", depth, verifC11FewNames)
+		y, cy = verifUntrustedSpelling("u")
+	}
 	var src string
 	switch verifChoose("shape", 4) {
 	case 0:
